@@ -1,0 +1,75 @@
+//go:build verif
+
+package dns
+
+// Add-only hooks for the verification harness in /verif (build tag "verif").
+// They export unexported helpers unchanged; nothing here alters behaviour.
+
+// VerifOptPack is EDNS0.pack.
+func VerifOptPack(o EDNS0) ([]byte, error) { return o.pack() }
+
+// VerifOptUnpack is makeDataOpt(code) followed by EDNS0.unpack.
+func VerifOptUnpack(code uint16, b []byte) (EDNS0, error) {
+	o := makeDataOpt(code)
+	err := o.unpack(b)
+	return o, err
+}
+
+// VerifOptCopy is EDNS0.copy.
+func VerifOptCopy(o EDNS0) EDNS0 { return o.copy() }
+
+// VerifSVCBPack is SVCBKeyValue.pack.
+func VerifSVCBPack(kv SVCBKeyValue) ([]byte, error) { return kv.pack() }
+
+// VerifSVCBLen is SVCBKeyValue.len.
+func VerifSVCBLen(kv SVCBKeyValue) int { return kv.len() }
+
+// VerifSVCBUnpack is makeSVCBKeyValue(key) followed by unpack.
+func VerifSVCBUnpack(key uint16, b []byte) (SVCBKeyValue, error) {
+	kv := makeSVCBKeyValue(SVCBKey(key))
+	if kv == nil {
+		return nil, &Error{err: "bad SVCB key"}
+	}
+	err := kv.unpack(b)
+	return kv, err
+}
+
+// VerifSVCBCopy is SVCBKeyValue.copy.
+func VerifSVCBCopy(kv SVCBKeyValue) SVCBKeyValue { return kv.copy() }
+
+// VerifAPLCopy is APLPrefix.copy.
+func VerifAPLCopy(p *APLPrefix) APLPrefix { return p.copy() }
+
+// VerifPackDomainName is packDomainName with the internal (uint16) compression
+// map; it returns the new offset and the map contents.
+func VerifPackDomainName(s string, msg []byte, off int, comp map[string]uint16, compress bool) (int, error) {
+	return packDomainName(s, msg, off, compressionMap{int: comp}, compress)
+}
+
+// VerifPackRR is packRR with the internal compression map.
+func VerifPackRR(rr RR, msg []byte, off int, comp map[string]uint16, compress bool) (headerEnd, off1 int, err error) {
+	if comp == nil {
+		return packRR(rr, msg, off, compressionMap{}, compress)
+	}
+	return packRR(rr, msg, off, compressionMap{int: comp}, compress)
+}
+
+// VerifDomainNameLen is domainNameLen.
+func VerifDomainNameLen(s string, off int, comp map[string]struct{}, compress bool) int {
+	return domainNameLen(s, off, comp, compress)
+}
+
+// VerifRRLen is RR.len.
+func VerifRRLen(rr RR, off int, comp map[string]struct{}) int { return rr.len(off, comp) }
+
+// VerifTypeBitMapLen is typeBitMapLen.
+func VerifTypeBitMapLen(bitmap []uint16) int { return typeBitMapLen(bitmap) }
+
+// VerifEscapedNameLen is escapedNameLen.
+func VerifEscapedNameLen(s string) int { return escapedNameLen(s) }
+
+// VerifIsDuplicateRdata is RR.isDuplicate (the RDATA comparison only).
+func VerifIsDuplicateRdata(a, b RR) bool { return a.isDuplicate(b) }
+
+// VerifNormalizedString is normalizedString (sanitize.go).
+func VerifNormalizedString(r RR) string { return normalizedString(r) }
